@@ -42,6 +42,27 @@ CLAIMED = {
                 "recorded, not repaired; Panic site 5 (Rc::try_unwrap) is believed unreachable but not yet proved so.",
         "technique": "Coq proof (panic-site / call-count / result judgements, all responses) + exhaustive single-fault injection via seccomp supervisor + trace replay",
     },
+    "C07": {
+        "text": "Machine-checked theorems over all kernel answers: creation flags are refused without a system call (resolver), "
+                "open never succeeds with them and open_follow refuses up front; the emulated resolver never lets a path with '..' "
+                "succeed (also behind expanded symlinks); open/readlink issue only O_NOFOLLOW opens; open_follow's single "
+                "possibly-following open comes right after the mount-id check of exactly (parent, final name). Runtime: live /proc "
+                "enumeration x bases x flags x {open, open_follow, readlink} on both procfs resolvers, compared with each other and "
+                "with an outcome-class table; traces replayed through the model.",
+        "note": COMMON_NOTE + "Partial: equality of the emulated resolver with the kernel's RESOLVE_BENEATH walk is validated by the "
+                "differential on the live /proc, not proved (no procfs tree model). Known finding F-M-nonabs-magiclink recorded.",
+        "technique": "Coq proof (all responses; history-indexed Hoare judgement for the follow site) + resolver differential on live /proc + trace replay",
+    },
+    "C09": {
+        "text": "Machine-checked theorems over all kernel answers: reopen with creation flags never succeeds; the magic-link name is "
+                "fd/<decimal> for every descriptor >= 0 (0 included); the only possibly-following open is the verified one; the "
+                "descriptor table is balanced. Runtime: 9 handle kinds x rename/replace/unlink histories x flag sets x descriptor "
+                "numbers {0,1,2,3,64,1023} x both feature sets, Rust and C API, threads with a private descriptor table; oracle: "
+                "(dev,ino) identity, F_GETFL/FD_CLOEXEC, and the kernel's own raw reopen of /proc/self/fd/N.",
+        "note": COMMON_NOTE + "That /proc/<tid>/fd/N denotes the open file description itself is the kernel's contract (exercised, "
+                "not proved). Over-mounted host /proc is exercised by C06's runs.",
+        "technique": "Coq proof (all responses) + differential against the kernel's raw reopen + trace replay",
+    },
 }
 
 PENDING_REASON = "check not registered yet in this round (design in DESIGN.md §%s; being built)"
